@@ -70,6 +70,7 @@ type world struct {
 	t      *testing.T
 	o      opts
 	r      *rand.Rand
+	plan   []int // step kinds forced next (a scenario started by an earlier step)
 	svc    *svc
 	cache  *recCache
 	clock  int64
@@ -329,7 +330,11 @@ func (w *world) closeStore() {
 func (w *world) step() {
 	r := w.r
 	names := append(append([]string{}, pool...), "zz", "")
-	switch x := r.Intn(20); {
+	x := r.Intn(20)
+	if len(w.plan) > 0 {
+		x, w.plan = w.plan[0], w.plan[1:]
+	}
+	switch {
 	case x < 3: // obtain a handle
 		n := pick(r, names)
 		res := "ok"
@@ -373,6 +378,14 @@ func (w *world) step() {
 			}
 		}()
 		emit("read\tn=%s\tnow=%d\tval=%s\tsnap=%s", hx(n), w.clock, res, snapString(w.st))
+		if len(w.plan) == 0 && r.Intn(3) == 0 {
+			// ... and then nothing but a shutdown: the program restarts from its cache, time passes,
+			// a poll decides what has expired - by the access time of this read
+			w.plan = []int{19, 15, 10}
+			if r.Intn(2) == 0 {
+				w.plan = []int{15, 4, 19, 15, 10} // some time passes, another read, then the same
+			}
+		}
 	case x < 9: // lookup
 		n := pick(r, names)
 		outcome := pick(r, []string{"ok", "ok", "ok", "fail", "notfound"})
